@@ -18,7 +18,7 @@ from vlib.runner import config_name
 
 
 def shards(tier, seed):
-    k = 1 if tier == 'quick' else 8
+    k = 2 if tier == 'quick' else 8
     out = [{'name': 'm1-dag-a', 'kind': 'm1', 'programs': 400 * k}, {'name': 'm1-dag-b', 'kind': 'm1', 'programs': 400 * k},
            {'name': 'm1-special', 'kind': 'special', 'reps': 40 * k}]
     for c in [(2, 0, False), (3, 1, False), (3, 1, True), (5, 2, False)]:
